@@ -564,6 +564,9 @@ impl Sim {
             // the reply is lost at transport level / arrives as an error object without a code
             "transport" => Err(RpcErr { code: None, message: String::from("connection closed"), transport: true }),
             "nocode" => Err(RpcErr { code: None, message: String::from("error without code"), transport: false }),
+            // negative codes: -1 is lightningd's catch-all, -4 what the caller gets when the pay plugin dies mid-payment;
+            // neither says anything about the parts already sent
+            "error_neg" => Err(RpcErr { code: Some(if cmd % 2 == 0 { -1 } else { -4 }), message: String::from("plugin terminated before replying to RPC call"), transport: false }),
             _ => Err(RpcErr { code: Some(210), message: String::from("Ran out of routes to try"), transport: false }),
         };
         let c = self.calls.get_mut(&cmd).unwrap();
